@@ -111,6 +111,13 @@ int main(int argc, char **argv) {
       line(s);
       line("NSC " + std::to_string(me) + " : " + std::to_string(ds.num_sets()) + " " + std::to_string(ds.size()));
       world.cf_barrier();
+      // all_find of items that never appeared in a union (each is a set of its own), with a duplicate, next to known items
+      std::vector<long> q = {500000 + me, 910001, 910002, 910002, 920000 + me, 600000 + me};
+      auto              reps = ds.all_find(q);
+      s = "FU " + std::to_string(me) + " :";
+      for (auto &kv : reps) s += " " + std::to_string(kv.first) + "," + std::to_string(kv.second);
+      line(s);
+      world.cf_barrier();
     }
   }
   line("DONE " + std::to_string(me));
